@@ -601,7 +601,7 @@ class Engine:
                 for k in list(lmap):
                     h, pre = lmap[k]
                     if h in hs:
-                        lmap[k] = (sub[h], pre)          # the variable is this term throughout
+                        lmap[k] = (sub[h], S(pre) if isinstance(pre, tuple) else pre)          # the variable is this term throughout
                     elif isinstance(pre, tuple):
                         lmap[k] = (h, S(pre))
         for d in (self.types, self.optype, self.clobber_pre, self.clobber_origin):
